@@ -3,6 +3,7 @@
 //!   {"obligation": "<label>", "input": ..., "observed": ..., "expected": ...}
 //! The witness search never decides pass/fail (only the verifier does); it attaches failing inputs to red obligations.
 mod c01;
+mod c04;
 mod c08;
 mod c15;
 
@@ -19,6 +20,7 @@ fn main() {
     let seed: u64 = args.get(2).and_then(|s| s.parse().ok()).unwrap_or(0);
     let n = match pid {
         "C01" => c01::run(seed),
+        "C04" => c04::run(seed, std::env::args().nth(3).as_deref() == Some("thorough")),
         "C08" => c08::run(seed),
         "C15" => c15::run(seed),
         _ => {
